@@ -2,6 +2,7 @@ package main
 
 import (
 	"context"
+	"encoding/json"
 	"errors"
 	"fmt"
 	"math/rand/v2"
@@ -105,7 +106,9 @@ type run struct {
 	strays         int
 	badHash        int
 	storm          bool
-	chain          map[string]int // position of the next request in the current chain, per sequence
+	closedW        map[chan struct{}]bool // waiters already released (several marker ids may share one waiter)
+	noWorker       int                    // channels dropped from the barrier: the library demonstrably has no worker for them
+	chain          map[string]int         // position of the next request in the current chain, per sequence
 	errBudget      map[string]int
 	tlBudget       map[string]int
 	tracked        map[int64]bool // channels the library has a worker for (from the image, or first seen during the run)
@@ -118,11 +121,11 @@ type run struct {
 
 func newRun(sc *scenario, initial *snapshot, occurred int, pushPhase bool, seed uint64) *run {
 	r := &run{
-		sc: sc, watchdog: 25 * time.Second, store: initial.clone(), occurred: occurred, pushPhase: pushPhase,
+		sc: sc, watchdog: 150 * time.Second, store: initial.clone(), occurred: occurred, pushPhase: pushPhase,
 		errRand: rand.New(rand.NewPCG(seed, uint64(sc.Idx)+77)),
 		probe:   map[int64]int64{}, waiters: map[int64]chan struct{}{}, seen: map[int64]bool{},
 		genuineChTL: map[int64]int{}, inboxWait: map[int64]chan struct{}{}, inboxMin: map[int64]int64{},
-		nextMarker: markerBase, tracked: map[int64]bool{}, chain: map[string]int{}, errBudget: map[string]int{}, tlBudget: map[string]int{},
+		nextMarker: markerBase, tracked: map[int64]bool{}, chain: map[string]int{}, closedW: map[chan struct{}]bool{}, errBudget: map[string]int{}, tlBudget: map[string]int{},
 	}
 	// Manager.loadChannels tracks every stored channel whose access hash is known.
 	for id := range r.store.Ch {
@@ -680,7 +683,10 @@ func (r *run) Handle(ctx context.Context, u tg.UpdatesClass) error {
 			r.rec(tev{T: "marker", M: t.UserID})
 			r.seen[t.UserID] = true
 			if w := r.waiters[t.UserID]; w != nil {
-				close(w)
+				if !r.closedW[w] {
+					r.closedW[w] = true
+					close(w)
+				}
 				delete(r.waiters, t.UserID)
 			}
 			continue
@@ -1020,7 +1026,7 @@ func (r *run) await(ch <-chan struct{}, what string, retry func()) bool {
 			}
 			if time.Now().After(deadline) {
 				if r.problem == "" {
-					r.problem = "barrier watchdog: " + what
+					r.problem = "barrier watchdog: " + what + " " + r.diag()
 				}
 				return false
 			}
@@ -1029,6 +1035,18 @@ func (r *run) await(ch <-chan struct{}, what string, retry func()) bool {
 			}
 		}
 	}
+}
+
+// diag describes the state of a stuck barrier (for the inconclusive message).
+func (r *run) diag() string {
+	r.mu.Lock()
+	defer r.mu.Unlock()
+	from := len(r.trace) - 16
+	if from < 0 {
+		from = 0
+	}
+	tail, _ := json.Marshal(r.trace[from:])
+	return fmt.Sprintf("[armed=%v tracked=%v pushPhase=%v occurred=%d trace=%d tail=%s]", r.probe, r.tracked, r.pushPhase, r.occurred, len(r.trace), tail)
 }
 
 func (r *run) newMarker() (int64, chan struct{}) {
@@ -1104,13 +1122,79 @@ func (r *run) round() (fixpoint, ok bool) {
 	if len(too) > 0 && !r.push(&tg.Updates{Updates: too}) {
 		return false, false
 	}
+	dropped := map[int64]bool{}
 	for _, p := range probes {
 		p := p
-		if !r.await(p.w, fmt.Sprintf("channel %d difference probe", p.ch), func() {
+		started, tries := time.Now(), 0
+		gone := make(chan struct{}) // released instead of p.w when the library has no worker for the channel
+		both := make(chan struct{})
+		go func() {
+			select {
+			case <-p.w:
+			case <-gone:
+			}
+			close(both)
+		}()
+		retry := func() {
+			tries++
+			r.mu.Lock()
+			if r.probe[p.ch] == 0 {
+				// The armed marker was attached to an answer but has not come back yet:
+				// arm another one for the same waiter, so a lost answer cannot strand us.
+				r.nextMarker++
+				r.waiters[r.nextMarker] = p.w
+				r.probe[p.ch] = r.nextMarker
+			}
+			requests := 0
+			for _, e := range r.trace[from:] {
+				if e.T == "chdiff" && e.Ch == p.ch {
+					requests++
+				}
+			}
+			r.mu.Unlock()
 			r.push(&tg.Updates{Updates: []tg.UpdateClass{&tg.UpdateChannelTooLong{ChannelID: p.ch}}})
-		}) {
+			if requests == 0 && tries >= 20 && time.Since(started) > 30*time.Second {
+				// Dozens of triggers and not one getChannelDifference for this channel.
+				// Prove the main loop consumed them (FIFO marker through the external
+				// queue); if there is still no request the library has no worker for the
+				// channel (it ignores updateChannelTooLong for unknown channels): nothing
+				// can be in flight for it, the barrier must not wait for it.
+				id, w := r.newMarker()
+				if r.push(&tg.UpdateShort{Update: markerUpd(id)}) {
+					select {
+					case <-w:
+						r.mu.Lock()
+						again := 0
+						for _, e := range r.trace[from:] {
+							if e.T == "chdiff" && e.Ch == p.ch {
+								again++
+							}
+						}
+						if again == 0 && !dropped[p.ch] {
+							dropped[p.ch] = true
+							r.tracked[p.ch] = false
+							r.probe[p.ch] = 0
+							r.noWorker++
+							close(gone)
+						}
+						r.mu.Unlock()
+					case <-time.After(10 * time.Second):
+					}
+				}
+			}
+		}
+		if !r.await(both, fmt.Sprintf("channel %d difference probe", p.ch), retry) {
 			return false, false
 		}
+	}
+	if len(dropped) > 0 {
+		kept := chans[:0:0]
+		for _, ch := range chans {
+			if !dropped[ch.ID] {
+				kept = append(kept, ch)
+			}
+		}
+		chans = kept
 	}
 	for _, ch := range chans {
 		ch := ch
